@@ -655,6 +655,10 @@ func (s *PersistentHybridIndex) Flush() error {
 	}
 	s.mu.RUnlock()
 
+	// Freeze the active memtable so that everything added so far is persisted,
+	// not only the memtables that happened to fill up.
+	s.memtableQueue.rotateIfNotEmpty()
+
 	return s.flushMemtables()
 }
 
@@ -875,9 +879,18 @@ func (s *PersistentHybridIndex) Close() error {
 	// Wait for workers to finish
 	s.wg.Wait()
 
+	// Final flush, including the active memtable: Close must not lose
+	// acknowledged writes.
+	s.memtableQueue.rotateIfNotEmpty()
+	flushErr := s.flushMemtables()
+
 	// Close provider (releases lock)
 	if err := s.provider.close(); err != nil {
 		return fmt.Errorf("failed to close provider: %w", err)
+	}
+
+	if flushErr != nil {
+		return fmt.Errorf("final flush failed: %w", flushErr)
 	}
 
 	return nil
